@@ -303,6 +303,14 @@ example : (match deepcopy current demo 1 with
     | none => false) = true := by
   decide +kernel
 
+/-- adding a class under a name that is already there replaces the old one: after adding a copy of
+    `B` (nested in `A`) renamed … here: a copy of `C` to the root, the root holds the copy, not the old `C` -/
+example : (match deepcopy current demo 4 with
+    | some (H1, y) => decide (lookupPath (applyEdit H1 (addClassEdit H1 0 y)) 0 ["C"] = some y) &&
+        decide (lookupPath (applyEdit H1 (addClassEdit H1 0 y)) 0 ["A"] = some 1)
+    | none => false) = true := by
+  decide +kernel
+
 /-- **With move semantics in `add_class` the statement is false**: the copy still has the
     original's parent, so the *original* `A` is popped from the tree it was copied from. -/
 theorem counterexample_add_class_moves :
